@@ -23,6 +23,7 @@ import (
 
 	"github.com/bluenviron/gohlslib/v2/pkg/playlist"
 
+	"verifharness/internal/playlist/grammar"
 	"verifharness/internal/rng"
 )
 
@@ -144,15 +145,17 @@ func countOptional(p playlist.Playlist) int {
 }
 
 type harness struct {
-	prop   string
-	w      *shardWriter
-	fs     *failSet
-	dist   map[string]int
-	seen   map[string]bool
-	nontr  int
-	evals  int
-	traces int
-	sample []inputRec
+	prop      string
+	w         *shardWriter
+	fs        *failSet
+	dist      map[string]int
+	seen      map[string]bool
+	nontr     int
+	evals     int
+	strictSeq int
+	allStrict bool
+	traces    int
+	sample    []inputRec
 }
 
 func (h *harness) note(in inputRec, key []byte, nontrivial bool) {
@@ -197,7 +200,17 @@ func (h *harness) decodeAll(stream string, text []byte, in inputRec, typed strin
 		c15Decode(h.fs, "Media.Unmarshal", med, in, len(text))
 		c15Decode(h.fs, "Multivariant.Unmarshal", mul, in, len(text))
 	}
+	// the Gallina strict grammar is compared with the Go grammar checker on the same text
+	strict := "None"
+	if h.prop == "C15" {
+		_, vs := grammar.Check(text)
+		strict = "(Some " + strconv.FormatBool(len(vs) == 0) + ")"
+		h.dist[stream+":grammar-accepts:"+strconv.FormatBool(len(vs) == 0)]++
+	}
 	if !compare || auto.panicked != "" || med.panicked != "" || mul.panicked != "" || auto.hung || med.hung || mul.hung {
+		if h.prop == "C15" && h.strictOnly(stream) {
+			h.w.add("CUnmarshal "+pstr(string(text))+" None None None "+strict, stream+":strict", in)
+		}
 		return auto
 	}
 	p := &printer{}
@@ -220,8 +233,15 @@ func (h *harness) decodeAll(stream string, text []byte, in inputRec, typed strin
 	if valueTerm != "" {
 		head = valueTerm + "\n "
 	}
-	h.w.add(head+pstr(string(text))+"\n "+mt+"\n "+ut+"\n "+at, stream+":unmarshal", in)
+	h.w.add(head+pstr(string(text))+"\n "+mt+"\n "+ut+"\n "+at+" "+strict, stream+":unmarshal", in)
 	return auto
+}
+
+// strictOnly: oracle-only streams (arbitrary bytes) still go to the strict-grammar comparison;
+// in the quick tier every second one
+func (h *harness) strictOnly(stream string) bool {
+	h.strictSeq++
+	return h.allStrict || h.strictSeq%2 == 0
 }
 
 func (h *harness) value(g *gen, p playlist.Playlist, valid bool, note string) {
@@ -371,7 +391,10 @@ func (h *harness) value(g *gen, p playlist.Playlist, valid bool, note string) {
 	}
 }
 
-func (h *harness) malformed(g *gen, src []byte, n int) {
+func (h *harness) malformed(g *gen, src []byte, n int) { h.malformedR(g.r, src, n) }
+
+func (h *harness) malformedR(r0 *rng.R, src []byte, n int) {
+	g := &gen{r: r0}
 	for k := 0; k < n; k++ {
 		t, name := mutate(g.r, string(src))
 		if g.r.Bool(1, 4) {
@@ -433,6 +456,7 @@ func main() {
 	}
 	os.MkdirAll(*out, 0o755)
 	h := &harness{prop: *prop, w: &shardWriter{dir: *out, max: 120}, fs: &failSet{}, dist: map[string]int{}, seen: map[string]bool{}, sample: []inputRec{}}
+	h.allStrict = *tier == "thorough"
 	g := newGen()
 
 	if *replay != "" {
@@ -481,6 +505,10 @@ func main() {
 		}
 		nMedia *= *scale
 		nMulti *= *scale
+		boundaryEvery := 24 // zero-valued boundary forms on every 24th media value (quick), every 3rd (thorough)
+		if *tier == "thorough" {
+			boundaryEvery = 3
+		}
 		corpus := loadCorpus(*repo)
 		if *prop == "C15" {
 			nsc := 12
@@ -506,6 +534,19 @@ func main() {
 				mr := realMarshal(p)
 				if mr.b != nil {
 					h.malformed(g, mr.b, 2)
+					if _, isMedia := p.(*playlist.Media); isMedia && i%boundaryEvery == 0 {
+						bts, bnames := boundaryTexts(string(mr.b))
+						for bi, bt := range bts {
+							in := textInput("boundary", []byte(bt), bnames[bi])
+							h.dist["boundary:"+strings.SplitN(bnames[bi], "=", 2)[0]]++
+							h.decodeAll("boundary", []byte(bt), in, "", true, "")
+							h.note(in, []byte(bt), true)
+						}
+					}
+					if _, vs := grammar.Check(mr.b); len(vs) == 0 {
+						// one more mutation of a grammatical text: its verdict depends on the mutation alone
+						h.malformed(g, mr.b, 1)
+					}
 					for k := 0; k < 3; k++ {
 						h.bytesOnly([]byte(noise(g.r, string(mr.b))), "noise")
 					}
